@@ -245,9 +245,9 @@ theorem exec_alive (c : Cmd) (g : G) (p : Proc) : (exec c g p).2.1.alive = p.ali
 /-- Own step: the facts computed by the transfer function hold afterwards. -/
 theorem own1 {i : Instr} {a x : F1} {g : G} {p : Proc} (hΓ : Γ1 a g p) (hreq : req1 i.cmd a = true)
     (htf : tf1 i.cmd a (exec i.cmd g p).2.2 = some x) : Γ1 x (exec i.cmd g p).1 (after i g p) := by
-  obtain ⟨line, c, kok, kfail, vis⟩ := i
+  obtain ⟨line, c, kok, kfail, vis, inh⟩ := i
   simp only at hreq htf ⊢
-  generalize hi : (⟨line, c, kok, kfail, vis⟩ : Instr) = i
+  generalize hi : (⟨line, c, kok, kfail, vis, inh⟩ : Instr) = i
   have hic : i.cmd = c := by rw [← hi]
   have hpid : (after i g p).pid = p.pid := after_pid i g p
   have hpol : c ≠ .policyFromCount → (after i g p).policy = p.policy := by
@@ -404,18 +404,18 @@ theorem Γ1_entry (g : G) (p : Proc) (hp : p.touched = false) : Γ1 safety.entry
   ⟨fun h => by simp [safety] at h, fun h => by simp [safety] at h, fun h => by simp [safety] at h,
    fun h => by rw [hp] at h; cases h⟩
 
-theorem inv1_step {prog : Prog} {ann : Ann safety} (hc : check safety prog ann = true) {s : State}
-    (hinv : Inv1 ann s) (e : Event) : Inv1 ann (step prog s e) := by
+theorem inv1_stepCore {prog : Prog} {ann : Ann safety} (hc : check safety prog ann = true) {s : State}
+    (hinv : Inv1 ann s) (e : Event) : Inv1 ann (stepCore prog s e) := by
   obtain ⟨hgi, huniq, hfresh, hprocs⟩ := hinv
   cases e with
   | commit good pol email =>
-    simp only [step]
+    simp only [stepCore]
     refine ⟨hgi.congr rfl rfl, huniq, hfresh, ?_⟩
     intro p hp ha
     obtain ⟨a, h1, h2⟩ := hprocs p hp ha
     exact ⟨a, h1, h2.congr rfl rfl rfl⟩
   | spawn =>
-    simp only [step]
+    simp only [stepCore]
     refine ⟨hgi, ?_, ?_, ?_⟩
     · intro p hp q hq hpq
       simp only [List.mem_append, List.mem_singleton] at hp hq
@@ -437,7 +437,7 @@ theorem inv1_step {prog : Prog} {ann : Ann safety} (hc : check safety prog ann =
         obtain ⟨a, h1, h2⟩ := check_entry hc
         exact ⟨a, h1, (Γ1_entry s.g _ rfl).mono h2⟩
   | kill pid =>
-    simp only [step]
+    simp only [stepCore]
     cases hf : findProc s.procs pid with
     | none => exact ⟨hgi, huniq, hfresh, hprocs⟩
     | some p =>
@@ -456,7 +456,7 @@ theorem inv1_step {prog : Prog} {ann : Ann safety} (hc : check safety prog ann =
             exact ⟨a, h1, h2.release (by simpa [hpp] using hq2)⟩
       · simp [hal]; exact ⟨hgi, huniq, hfresh, hprocs⟩
   | step pid =>
-    simp only [step]
+    simp only [stepCore]
     cases hf : findProc s.procs pid with
     | none => exact ⟨hgi, huniq, hfresh, hprocs⟩
     | some p =>
@@ -511,15 +511,61 @@ theorem inv1_step {prog : Prog} {ann : Ann safety} (hc : check safety prog ann =
               rw [after_pid] at hq2
               exact ⟨b, h1, other1 h2 hq2 hmut⟩
       · simp [hal]; exact ⟨hgi, huniq, hfresh, hprocs⟩
+  | killDuring pid => exact ⟨hgi, huniq, hfresh, hprocs⟩
 
-theorem inv1_run {prog : Prog} {ann : Ann safety} (hc : check safety prog ann = true) (se : Bool)
-    (es : List Event) : Inv1 ann (run prog se es) := by
+theorem inh_of_ok {prog : Prog} (h : inhOK prog = true) {pc : Nat} {i : Instr} (hi : instrAt prog pc = some i)
+    (he : i.cmd.external = true) : i.inh = true := by
+  simp only [inhOK, List.all_eq_true] at h
+  have hm : i ∈ prog := by
+    unfold instrAt at hi
+    exact List.mem_of_getElem? hi
+  have := h i hm
+  simp [he] at this
+  exact this
+
+/-- Lift a property of states that does not look at `dying` from `stepCore` to `step`
+(for programs whose child processes all inherit fd 9). -/
+theorem step_lift {prog : Prog} (hinh : inhOK prog = true) {P : State → Prop}
+    (hcore : ∀ s e, P s → P (stepCore prog s e))
+    (hdy : ∀ s d, P s → P { s with dying := d }) (s : State) (e : Event) (h : P s) : P (step prog s e) := by
+  cases e with
+  | killDuring pid =>
+    cases hf : findProc s.procs pid with
+    | none => simp only [step, hf]; exact h
+    | some p =>
+      cases hi : instrAt prog p.pc with
+      | none => simp only [step, hf, hi]; exact hcore _ _ h
+      | some i =>
+        by_cases hc : (p.alive && i.cmd.external) = true
+        · have he : i.cmd.external = true := by simp at hc; exact hc.2
+          simp only [step, hf, hi, hc, if_true, inh_of_ok hinh hi he]
+          exact hdy _ _ h
+        · have hc' : (p.alive && i.cmd.external) = false := by simpa using hc
+          simp only [step, hf, hi, hc', Bool.false_eq_true, if_false]; exact hcore _ _ h
+  | step pid =>
+    simp only [step]
+    split
+    · exact hcore _ _ (hdy _ _ (hcore _ _ h))
+    · exact hcore _ _ h
+  | commit good pol email => exact hcore s (.commit good pol email) h
+  | spawn => exact hcore s .spawn h
+  | kill pid => exact hcore s (.kill pid) h
+
+theorem Inv1.dying {ann : Ann safety} {s : State} {d : List Nat} (h : Inv1 ann s) : Inv1 ann { s with dying := d } :=
+  ⟨h.gi, h.uniq, h.fresh, h.procs⟩
+
+theorem inv1_step {prog : Prog} {ann : Ann safety} (hinh : inhOK prog = true) (hc : check safety prog ann = true)
+    {s : State} (hinv : Inv1 ann s) (e : Event) : Inv1 ann (step prog s e) :=
+  step_lift hinh (P := Inv1 ann) (fun _ e h => inv1_stepCore hc h e) (fun _ _ h => h.dying) s e hinv
+
+theorem inv1_run {prog : Prog} {ann : Ann safety} (hinh : inhOK prog = true) (hc : check safety prog ann = true)
+    (se : Bool) (es : List Event) : Inv1 ann (run prog se es) := by
   unfold run
   have h0 : Inv1 ann (init se) := inv1_init hc se
   generalize init se = s0 at h0
   induction es generalizing s0 with
   | nil => exact h0
-  | cons e es ih => exact ih _ (inv1_step hc h0 e)
+  | cons e es ih => exact ih _ (inv1_step hinh hc h0 e)
 
 end NA.C19
 
@@ -546,15 +592,15 @@ theorem works_holds {prog : Prog} {ann : Ann safety} (hc : check safety prog ann
       exact hΓ.holds hr.1
 
 /-- Whoever changes `current` is a live process whose `p$POLICY` directory exists and is compiled. -/
-theorem current_change {prog : Prog} {ann : Ann safety} (hc : check safety prog ann = true) {s : State}
-    (hinv : Inv1 ann s) (e : Event) (hch : (step prog s e).g.current ≠ s.g.current) :
+theorem current_changeCore {prog : Prog} {ann : Ann safety} (hc : check safety prog ann = true) {s : State}
+    (hinv : Inv1 ann s) (e : Event) (hch : (stepCore prog s e).g.current ≠ s.g.current) :
     ∃ pid p d, e = .step pid ∧ findProc s.procs pid = some p ∧ p.alive = true ∧
       s.g.lock = some p.pid ∧ lookupDir s.g.dirs p.policy = some d ∧ d.built = true := by
   cases e with
-  | commit good pol email => simp [step, applyCommit] at hch
-  | spawn => simp [step] at hch
+  | commit good pol email => simp [stepCore, applyCommit] at hch
+  | spawn => simp [stepCore] at hch
   | kill pid =>
-    simp only [step] at hch
+    simp only [stepCore] at hch
     cases hf : findProc s.procs pid with
     | none => simp [hf] at hch
     | some p =>
@@ -563,7 +609,7 @@ theorem current_change {prog : Prog} {ann : Ann safety} (hc : check safety prog 
       · simp only [release] at hch; split at hch <;> simp at hch
       · simp at hch
   | step pid =>
-    simp only [step] at hch
+    simp only [stepCore] at hch
     cases hf : findProc s.procs pid with
     | none => simp [hf] at hch
     | some p =>
@@ -593,5 +639,44 @@ theorem current_change {prog : Prog} {ann : Ann safety} (hc : check safety prog 
           obtain ⟨hl, d, hd2⟩ := hΓ.dirOk hd
           exact ⟨pid, p, d, rfl, hf, hal, hl, hd2, hinv.gi.dirs _ _ hd2⟩
       · simp [hal] at hch
+  | killDuring pid => simp [stepCore] at hch
+
+theorem kill_current {prog : Prog} (s : State) (pid : Nat) : (stepCore prog s (.kill pid)).g.current = s.g.current := by
+  simp only [stepCore]
+  split
+  · split
+    · simp only [release]; split <;> rfl
+    · rfl
+  · rfl
+
+theorem current_change {prog : Prog} {ann : Ann safety} (hc : check safety prog ann = true) {s : State}
+    (hinv : Inv1 ann s) (e : Event) (hch : (step prog s e).g.current ≠ s.g.current) :
+    ∃ pid p d, e = .step pid ∧ findProc s.procs pid = some p ∧ p.alive = true ∧
+      s.g.lock = some p.pid ∧ lookupDir s.g.dirs p.policy = some d ∧ d.built = true := by
+  cases e with
+  | killDuring pid =>
+    exfalso; apply hch
+    cases hf : findProc s.procs pid with
+    | none => simp only [step, hf]
+    | some p =>
+      cases hi : instrAt prog p.pc with
+      | none => simp only [step, hf, hi]; exact kill_current s pid
+      | some i =>
+        simp only [step, hf, hi]
+        split
+        · split
+          · rfl
+          · show (release s.g pid).current = s.g.current
+            simp only [release]; split <;> rfl
+        · exact kill_current s pid
+  | step pid =>
+    simp only [step] at hch
+    split at hch
+    · rw [kill_current] at hch
+      exact current_changeCore hc hinv (.step pid) hch
+    · exact current_changeCore hc hinv (.step pid) hch
+  | commit good pol email => exact current_changeCore hc hinv _ hch
+  | spawn => exact current_changeCore hc hinv _ hch
+  | kill pid => exact current_changeCore hc hinv _ hch
 
 end NA.C19
